@@ -2,5 +2,5 @@
 import resource
 TUS = resource.TUS
 def run(facts, rep, tier):
-    resource.emit(facts, rep, 'C01', ['RES.1', 'RES.2a', 'RES.3', 'RES.4', 'RES.5', 'RES.6', 'RES.8x', 'RES.9', 'RES.11', 'RES.13', 'RES.15a'],
+    resource.emit(facts, rep, 'C01', ['RES.1', 'RES.2a', 'RES.3', 'RES.4', 'RES.5', 'RES.6', 'RES.8x', 'RES.9', 'RES.11', 'RES.13', 'RES.15a', 'RES.16'],
                   {'RES.1': 5, 'RES.2a': 3, 'RES.3': 8, 'RES.4': 4, 'RES.5': 6, 'RES.6': 4, 'RES.8x': 8, 'RES.9': 1, 'RES.11': 8, 'RES.13': 8, 'RES.15a': 2})
